@@ -102,7 +102,7 @@ def rust_skel_arms(text):
     for i, a in enumerate(arms):
         end = arms[i + 1].start() if i + 1 < len(arms) else len(body)
         seg = body[a.end():end]
-        c = re.search(r"cx\.r#(\w+)\(", seg)
+        c = re.search(r"cx\s*\.r#(\w+)\(", seg)
         if c:
             out[int(a.group(1))] = c.group(1)
     return out
